@@ -90,6 +90,33 @@ fn dec_ip_families(list: &[u8], fam: Fam) -> Result<(Option<IpResources>, Option
     Mode::Der.decode(ext.as_slice(), |cons| IpResources::take_families_from(cons)).map_err(|e| e.to_string())
 }
 
+/// The IP decoders under a BER-mode decoder.
+fn dec_ip_ber(b: &[u8], fam: Fam) -> Vec<(&'static str, Result<IpBlocks, String>)> {
+    let afi = tlv(0x04, if fam == Fam::V4 { &[0, 1] } else { &[0, 2] });
+    let ext = der_seq(&[der_seq(&[afi, b.to_vec()])]);
+    vec![
+        ("IpBlocks::take_from (BER mode)", Mode::Ber.decode(b, |cons| IpBlocks::take_from(cons)).map_err(|e| e.to_string())),
+        (
+            "IpBlocks::take_from_with_family (BER mode)",
+            Mode::Ber.decode(b, |cons| IpBlocks::take_from_with_family(cons, fam.afi())).map_err(|e| e.to_string()),
+        ),
+        (
+            "IpResources::take_from (BER mode)",
+            Mode::Ber
+                .decode(b, |cons| IpResources::take_from(cons, fam.afi()))
+                .map_err(|e| e.to_string())
+                .and_then(|r| r.to_blocks().map_err(|e| e.to_string())),
+        ),
+        (
+            "IpResources::take_families_from (BER mode)",
+            Mode::Ber.decode(ext.as_slice(), |cons| IpResources::take_families_from(cons)).map_err(|e| e.to_string()).and_then(|(v4, v6)| {
+                let own = if fam == Fam::V4 { v4 } else { v6 };
+                own.ok_or_else(|| "family missing".to_string())?.to_blocks().map_err(|e| e.to_string())
+            }),
+        ),
+    ]
+}
+
 //------------ build -----------------------------------------------------------------------------------
 
 #[derive(Clone, Debug, Serialize, Deserialize)]
